@@ -142,13 +142,13 @@ Definition check_reg (ids : list N) (wm0 : Z) (ops : list robs) : list N :=
 
 (* ---------- (c) Operator with a scripted recording handler ---------- *)
 (* the harness handler: a keyed event sets the timers scripted in its payload; an expired timer of a key
-   with id >= 4 whose second is 0..3 mod 10 re-arms at +2 s and tries -1 s (at or before the watermark) *)
+   with id >= 4 whose second is 0..1 mod 10 re-arms at +2 s and tries -1 s (at or before the watermark) *)
 Definition h_script : handler := fun _ evs =>
   map (fun e => match e with
                 | HK _ key timers => (key, timers)
                 | HT key ts =>
                     let '(s, n) := pb_new ts in
-                    if (4 <=? key)%N && (s mod 10 <? 4) then (key, [Some (s + 2, n); Some (s - 1, n)]) else (key, [])
+                    if (4 <=? key)%N && (s mod 10 <? 2) then (key, [Some (s + 2, n); Some (s - 1, n)]) else (key, [])
                 end) evs.
 
 Definition oev_of (e : hevent) : oev := match e with HK id _ _ => EK id | HT k t => ET k t end.
